@@ -739,8 +739,7 @@ def h_contains(c, p, q):
         parents = sm._get_parent_directories(X)
         _agree(c, any(d is A for d in parents), want_pq, 'parent_directories_are_the_ancestors', sig)
         c.check(any(d is B for d in parents) and all(d is A or d is B for d in parents), 'parent_directories_are_the_ancestors', sig=sig)
-        c.check(all(len(a.absolute_path) <= len(b.absolute_path) for a, b in zip(parents, parents[1:])),
-                'parent_directories_innermost_last', sig=sig)
+        # (the ORDER of the returned list is a private contract between the helper and its callers, not checked here)
         Y = MD.SharedDirectory(pp, pp, 'aly')
         children = sm._get_child_directories(Y)
         _agree(c, any(d is B for d in children), want_pq, 'child_directories_are_the_descendants', sig)
@@ -761,6 +760,12 @@ TREES = {
     'T6': {'nodes': [(None, 'r', 1), (0, 'C', 1), (1, 'D', 1), (1, 'S', 1), (0, 'S', 1)], 'child': 1,
            'letters': {'D': 2, 'S': 4}},
 }
+# chains of nested shares (h_nested): every directory of the chain is a share
+CHAINS = {
+    'N3': {'nodes': [(None, 'r', 1), (0, 'B', 1), (1, 'C', 1)], 'child': 1},
+    'N4': {'nodes': [(None, 'r', 1), (0, 'B', 1), (1, 'C', 1), (2, 'D', 1)], 'child': 1},
+}
+TREES.update(CHAINS)
 HISTORIES = {
     # steps: aO/aC add outer / child, s scan every shared directory, rC/rO remove, ! check the index
     'OC_s': ['aO', 'aC', 's', '!'],
@@ -810,7 +815,7 @@ class Tree:
         keys = sorted({k for _, k, _ in nodes if k != 'r'})
         self.names = {'r': reshim.const('r') if c.symbolic else 'r'}
         for k in keys:
-            self.names[k] = build(c, f'n{k}', '~' * lens[k])
+            self.names[k] = build(c, f'n{k}', lens[k] if isinstance(lens[k], str) else '~' * lens[k])
         self.fs = sstr.SymFS() if c.symbolic else None
         self.tmp = None if c.symbolic else tempfile.mkdtemp(prefix='c07-')
         root = reshim.const('/') if c.symbolic else self.tmp + '/'
@@ -825,8 +830,11 @@ class Tree:
             else:
                 os.makedirs(path)
             for j in range(nfiles):
-                fname = build(c, f'f{i}_{j}', '~~') if symbolic_files else (reshim.const(f'f{i}{j}') if c.symbolic else f'f{i}{j}')
-                if symbolic_files:
+                if isinstance(symbolic_files, dict):        # node index -> file name template
+                    fname = build(c, f'f{i}_{j}', symbolic_files[str(i)])
+                else:
+                    fname = build(c, f'f{i}_{j}', '~~') if symbolic_files else (reshim.const(f'f{i}{j}') if c.symbolic else f'f{i}{j}')
+                if symbolic_files is True:
                     conds += [_not(sstr.eq(fname, '..')) if c.symbolic else fname != '..']
                     conds += [(_not(sstr.eq(fname, o)) if c.symbolic else fname != o) for n2, o, _ in self.files if n2 == i]
                     # a file and a sub-directory of one directory have different names
@@ -958,7 +966,8 @@ def h_index(c, tree, lens, history, symbolic_files=False):
                     if step[0] == 'a':
                         shared[which[step[1]]] = sm.add_shared_directory(t.paths[which[step[1]]])
                     elif step[0] == 'r':
-                        sm.remove_shared_directory(shared.pop(which[step[1]]))
+                        # the caller keeps what the API returned (the change event carries the same object)
+                        sm.__dict__.setdefault('_verif_kept', []).append(sm.remove_shared_directory(shared.pop(which[step[1]])))
                     elif step[0] == 's':
                         loop = VLoop()
                         try:
@@ -978,6 +987,130 @@ def h_index(c, tree, lens, history, symbolic_files=False):
                         judge_index(c, sm, t, shared, [tree, history, kind, rel])
                         c.reach('index_judged')
                     prev = step
+            finally:
+                SM.__dict__['scan_directory'] = real_scan
+    finally:
+        t.cleanup()
+
+
+class _Members:
+    """stand-in for settings.users.friends / SharedDirectory.users: whether the asking user is a member is one symbolic
+    Bool (`in` forks on it)"""
+
+    def __init__(self, member):
+        self.member = member
+
+    def __contains__(self, user):
+        return bool(self.member)
+
+    def __iter__(self):
+        return iter(())
+
+    def __bool__(self):
+        return True             # `users or []` must keep the object
+
+
+ASKER = 'asker'
+
+
+def h_nested(c, chain, remove, rescan, order='down', inner='a ~~'):
+    """a chain of nested shares (every level shared, each with its own share mode / user list), scanned; one share of
+    the chain is removed; then nothing / one directory / everything is rescanned.  Through the public API only: a
+    query by a user, get_stats.  Every file is returned exactly once, the counts are those of the files the harness
+    created, and a file is visible to the asking user iff the INNERMOST REMAINING share that contains it entitles
+    them."""
+    sstr.use_alphabet(SIGMA)
+    from aioslsk.shares.model import DirectoryShareMode as Mode
+    nodes = CHAINS[chain]['nodes']
+    depth = len(nodes)
+    # every file name contains the word 'a' (the query); the innermost file has two symbolic characters
+    tpls = {str(i): (inner if i == depth - 1 else f'a {i}') for i in range(depth)}
+    t = Tree(c, chain, {k: k.lower() for _, k, _ in nodes if k != 'r'}, tpls)
+    try:
+        c.assume(t.assumption)
+        modes = [c.pick([Mode.EVERYONE, Mode.FRIENDS, Mode.USERS], f'mode{i}') for i in range(depth)]
+        friend = c.fresh_bool('asker_is_friend')
+        listed = [c.fresh_bool(f'asker_listed{i}') for i in range(depth)]
+
+        def entitled(i):
+            """reference: the share of level i lets the asking user see its files"""
+            if modes[i] is Mode.EVERYONE:
+                return True
+            return friend if modes[i] is Mode.FRIENDS else listed[i]
+        if not c.symbolic:
+            c.note('shares', [str(p) for p in t.paths], 'modes', [m.name for m in modes], 'friend', friend, 'listed', listed,
+                   'files', [str(f[2]) for f in t.files])
+        errors = []
+        real_scan = SM.scan_directory
+
+        def scan_directory(*a, **kw):
+            try:
+                found = real_scan(*a, **kw)
+            except Exception as e:
+                errors.append(e)
+                raise
+            if not c.symbolic:
+                return found
+            return {(MD.SharedItem(it.shared_directory, S(it.subdir), S(it.filename), it.modified)
+                     if isinstance(it.subdir, str) or isinstance(it.filename, str) else it) for it in found}
+        from engine.vloop import VLoop
+        with Env(c, t.fs):
+            SM.__dict__['scan_directory'] = scan_directory
+            try:
+                settings = Settings(credentials={'username': 'u', 'password': 'p'})
+                settings.users.__dict__['friends'] = _Members(friend)
+                sm = SM.SharesManager(settings, EventBus(), None)
+                if c.symbolic:
+                    seq = iter(range(100))
+                    sm.generate_alias = lambda path, offset=0: S(f'al{next(seq)}')
+                shared = {}
+                for i in (range(depth) if order == 'down' else reversed(range(depth))):
+                    shared[i] = sm.add_shared_directory(t.paths[i], share_mode=modes[i], users=_Members(listed[i]))
+
+                def scan(dirs):
+                    loop = VLoop()
+                    try:
+                        for d in dirs:
+                            loop.run_until_complete(sm.scan_directory_files(d))
+                        if loop.errors:
+                            raise symex.HarnessError(f'loop errors during scan: {loop.errors!r}')
+                    finally:
+                        loop.cleanup()
+                    for e in errors:
+                        if isinstance(e, symex.HarnessError) or _proxy_error(e):
+                            raise symex.HarnessError(f'inside scan_directory: {type(e).__name__}: {e}')
+                scan(list(sm.shared_directories))
+                # the caller keeps what the API returned (the change event carries the same object)
+                sm.__dict__.setdefault('_verif_kept', []).append(sm.remove_shared_directory(shared.pop(remove)))
+                if rescan == 'all':
+                    scan(list(sm.shared_directories))
+                elif rescan != 'none':
+                    scan([shared[{'outer': 0, 'enclosing': max(i for i in shared if i < remove),
+                                  'inner': min([i for i in shared if i > remove] or [0])}[rescan]]])
+                # Until fix 615ddb2 the removed SharedDirectory kept its items and the items refer to it: a caller holding
+                # the returned object (as this harness does since wave 4b) kept them alive in the WeakSets of the term map.
+                # The collection is kept so that the state judged does not depend on when CPython's cyclic collector runs.
+                _collect()
+                sig = [chain, f'remove_level_{remove}', f'rescan_{rescan}']
+                c.check(not errors, 'scan_does_not_raise', sig=sig, info=repr(errors[:1]))
+                # --- observation through the public API ---
+                visible, locked = sm.query(S('a') if c.symbolic else 'a', username=ASKER)
+                shown = [(item_path(it), True) for it in visible] + [(item_path(it), False) for it in locked]
+                for node, fname, fpath in t.files:
+                    hits = [(sstr.eq(ip, fpath), vis) for ip, vis in shown]
+                    same = [h for h, _ in hits]
+                    info = f'file of level {node}'
+                    once = _and([_or(same)] + [_not(_and([a, b])) for a, b in itertools.combinations(same, 2)])
+                    c.check(once, 'nested_file_returned_exactly_once', sig=sig, info=info)
+                    holder = max(i for i in shared if i <= node)            # innermost remaining enclosing share
+                    want = entitled(holder)
+                    got_visible = _or(h for h, vis in hits if vis)
+                    c.check(_or([_and([got_visible, want]), _and([_not(got_visible), _not(want)])]),
+                            'nested_file_visible_iff_innermost_share_entitles', sig=sig, info=info)
+                dir_count, file_count = sm.get_stats()
+                c.check(file_count == len(t.files), 'nested_reported_file_count', sig=sig, info=f'reported {file_count}, created {len(t.files)}')
+                c.check(dir_count == len(t.files), 'nested_reported_folder_count', sig=sig, info=f'reported {dir_count}, created {len(t.files)}')
+                c.reach('nested_judged')
             finally:
                 SM.__dict__['scan_directory'] = real_scan
     finally:
@@ -1257,6 +1390,23 @@ def jobs(tier):
             for hist in histories_of(tree):
                 for symf in ((False,) if quick else (False, True)):
                     out.append(_ijob(tree, lens, hist, symf))
+    # --- chains of nested shares: removal of one level, observed through query(username) and get_stats ---
+    nreq = ['nested_judged', 'nested_file_returned_exactly_once', 'nested_file_visible_iff_innermost_share_entitles']
+    if quick:
+        for rm, rs in ((2, 'enclosing'), (2, 'none'), (1, 'enclosing')):
+            out.append({'harness': 'nested', 'fn': h_nested, 'params': {'chain': 'N3', 'remove': rm, 'rescan': rs, 'inner': 'a ~'},
+                        'requires': nreq, 'timeout_s': 300})
+    else:
+        for chain, depth in (('N3', 3), ('N4', 4)):
+            for rm in range(1, depth):
+                for rs in ('none', 'enclosing', 'outer', 'inner', 'all'):
+                    if (rs == 'inner' and rm == depth - 1) or (rs == 'outer' and rm == 1):
+                        continue        # no share below the removed one / same as 'enclosing'
+                    for order in (('down', 'up') if chain == 'N3' else ('down',)):
+                        out.append({'harness': 'nested', 'fn': h_nested,
+                                    'params': {'chain': chain, 'remove': rm, 'rescan': rs, 'order': order,
+                                               'inner': 'a ~~' if chain == 'N3' else 'a ~'},
+                                    'requires': nreq, 'timeout_s': 1300})
     # --- the query itself ---
     if quick:
         for q in QUERIES_QUICK:
@@ -1321,7 +1471,8 @@ META = {
                   MD.SharedDirectory.is_parent_of, MD.SharedDirectory.is_child_of, MD.SharedDirectory.get_items_for_directory,
                   SM.SharesManager._get_parent_directories, SM.SharesManager._get_child_directories, SM.scan_directory,
                   SM.SharesManager.add_shared_directory, SM.SharesManager.remove_shared_directory, SM.SharesManager.get_shared_directory,
-                  SM.SharesManager.is_directory_shared, SM.SharesManager.get_stats],
+                  SM.SharesManager.is_directory_shared, SM.SharesManager.get_stats, SM.SharesManager.is_item_locked,
+                  SM.SharesManager.is_directory_locked],
     'stubs': ['`re` in shares.manager / shares.utils / shares.model / search.model -> engine.reshim.ReShim: compile/search/match/fullmatch = '
               'formula over positions built from the real pattern text parsed by re._parser (validated against CPython re in prelude and by '
               'the selfcheck harness on all of Σ^n); split/sub/escape = engine.sstr backtracking matcher (forks per separator position)',
@@ -1344,6 +1495,9 @@ META = {
               'os.path.commonpath / relpath / normpath / abspath / join as transcriptions of posixpath that fork on separator positions and '
               'component equalities (validated against posixpath and a real os.walk in prelude), getmtime = the model value',
               '`isinstance` in shares.manager / shares.model: an SStr counts as str (SStr is not a str subclass)',
+              'h_nested: settings.users.friends and SharedDirectory.users -> a membership stand-in whose `in` forks on one symbolic Bool (is the '
+              'asking user a friend / listed for that share); gc.collect() after the removal / rescan (the removed SharedDirectory and its '
+              'moved items form a reference cycle, see docs)',
               'every path-like string is an SStr in symbolic runs, also fully concrete ones: directory paths, aliases, sub-directories and file '
               'names the harness builds; os.sep / curdir / pardir of the os stand-in; the items returned by scan_directory are rebuilt with SStr '
               'fields when the code filled them from its own literals (subdir = ""). A method of a plain str called with an SStr argument is C '
@@ -1368,6 +1522,7 @@ META = {
                        'h_pattern: every character of the searched string (length 0..7) and of symbolic terms',
                        'h_contains: every character after the leading / of two absolute paths (0..7 free characters each) over Σ + "/": where the '
                        'components are is the solver\'s choice (assumed normalised as abspath+normpath return them)',
+                       'h_nested: asker_is_friend, asker_listed(i) per share: Bool; two (quick: one) characters of the innermost file name',
                        'h_index: every character of every directory name below the outer shared directory (nested shared directory, its siblings, '
                        'an intermediate directory, a sub-directory; 1..4 characters each over Σ), in some jobs 2-character file names'],
     'discriminants': ['number and lengths of file names / name templates', 'layout (shared directory and concrete sub-directory of each file)',
@@ -1375,6 +1530,8 @@ META = {
                       'how the index came about (rebuild from items / per-directory build + clean-up / scan / scan, the queries, a file vanishes | appears | '
                       'changes, rescan, garbage collection, the queries again)',
                       'a second query on the same manager',
+                      'h_nested: chain depth (3; thorough also 4), share mode of every level (3 each, forked), which level is removed, what is rescanned '
+                      'afterwards (nothing / the enclosing share / the outer share / the share below / everything), order in which the shares were added',
                       'h_index: tree shape (T1..T6), name lengths, history (order of add outer / add nested / scan / remove nested / remove outer / add a '
                       'deeper or sibling nested directory after the removal / scan of that one directory; 16 histories), whether a sibling name is a string-prefix extension of the nested directory\'s name (decided by a fork, part '
                       'of the signature)',
